@@ -131,6 +131,29 @@ Definition epilogue (e : link_end) (w : will_wait) : bool * bool :=
     end in
   (send_disconnect, publish_will).
 
+(** The client ids [remote()] works with after admission.  [generated] stands for the
+    "rumqtt-<uuid>" string of [Uuid::new_v4()]; no tenant (TLS tenant ids are not modelled).
+    - [id_assigned]: [assigned_client_id], handed to [RemoteLink::new] and put into the CONNACK;
+    - [id_local]: the local [client_id] after the block: key of the will-handler map and the id
+      carried by [Event::PublishWill((client_id, tenant_id))] in the epilogue. *)
+Record conn_ids := { id_assigned : option str; id_local : str }.
+
+Definition remote_ids (connect_id generated : str) : conn_ids :=
+  match connect_id with
+  | [] => {| id_assigned := Some generated; id_local := generated |}
+  | _ :: _ => {| id_assigned := None; id_local := connect_id |}
+  end.
+
+(** [RemoteLink::new]: [assigned_client_id.as_ref().unwrap_or(&connect.client_id)] is the id
+    the link registers with the router, i.e. the key under which the router stores the will *)
+Definition registered_id (connect_id : str) (ids : conn_ids) : str :=
+  match id_assigned ids with
+  | Some a => a
+  | None => connect_id
+  end.
+
+Definition will_event_id (ids : conn_ids) : str := id_local ids.
+
 (* ---------------------------------------------------------------- notification -> packet *)
 
 (** broker -> client packets, as far as the dispatch of [Protocol::write] and the content
